@@ -70,7 +70,9 @@ def slayout : G SLayout := do
   let crlf ← chance 1 4
   let nf ← below 3
   let follow ← listOf nf bline
-  pure { indent := indent, gaps := gaps, trail := trail, comment := c, crlf := crlf, follow := follow }
+  let no ← below 5
+  let opGaps ← listOf no (blanks 0 2)
+  pure { indent := indent, gaps := gaps, trail := trail, comment := c, crlf := crlf, follow := follow, opGaps := opGaps }
 
 def sepItem : G SepItem := do
   let k ← below 10
